@@ -177,7 +177,7 @@ package storage
 //@   ensures result == ic(n, cnt(n)-1).key
 
 //@ func (n *btreeNode) updateCell(key uint32, value []byte) error
-//@   props C01 C08 C14
+//@   props C01 C08 C14 C16
 //@   requires n.isLeaf && slotsOK(n) && sortedKeys(n) && identity(n)
 //@   modifies all(leafCell.valueBytes), all(leafCell.valueSize)
 //@   ensures[toolarge; C08 C14] len(value) > maxValue ==> result == ErrRowTooLarge
@@ -747,7 +747,7 @@ package storage
 //@   requires rs != nil && rs.fs != nil && schemaOK(r)
 //@   requires len(cols) <= len(updateSrc)
 //@   assume[lsn-no-wrap] rs.fs._nextLSN < 18446744073709551615
-//@   invariant[L1; C02] rs.fs._nextLSN - len(walLogs) == old(rs.fs._nextLSN - len(walLogs))
+//@   invariant[L1; C02 C03] rs.fs._nextLSN - len(walLogs) == old(rs.fs._nextLSN - len(walLogs))
 //@   modifies cell(walLogs), rs.fs._nextLSN, all(leafCell.valueBytes), all(leafCell.valueSize), all(btreeNode.dirty), all(btreeNode.lastLSN), storeState, elems(walLogs)
 //@   ensures[L2; C02 C04] (forall c *leafCell :: c.valueBytes == old(c.valueBytes) && c.valueSize == old(c.valueSize)) ||
 //@              (cell.pg.dirty && cell.pg.lastLSN == old(rs.fs._nextLSN) && rs.fs._nextLSN == old(rs.fs._nextLSN) + 1)
@@ -773,7 +773,7 @@ package storage
 //@   requires cell != nil && cell.pg != nil && leafShape(cell.pg)
 //@   requires rs != nil && rs.fs != nil
 //@   assume[lsn-no-wrap] rs.fs._nextLSN < 18446744073709551615
-//@   invariant[L1; C02] rs.fs._nextLSN - len(walLogs) == old(rs.fs._nextLSN - len(walLogs))
+//@   invariant[L1; C02 C03] rs.fs._nextLSN - len(walLogs) == old(rs.fs._nextLSN - len(walLogs))
 //@   modifies cell(walLogs), cell(found), rs.fs._nextLSN, all(leafCell.valueBytes), all(leafCell.valueSize), all(btreeNode.dirty), all(btreeNode.lastLSN), storeState, elems(walLogs)
 //@   ensures[L2; C02 C04] (forall c *leafCell :: c.valueBytes == old(c.valueBytes) && c.valueSize == old(c.valueSize)) ||
 //@              (cell.pg.dirty && cell.pg.lastLSN == old(rs.fs._nextLSN) && rs.fs._nextLSN == old(rs.fs._nextLSN) + 1)
@@ -810,12 +810,15 @@ package storage
 
 // ---- page flush and table creation under the lock typestate (C13, C04, C14) ----
 
+//@ ghost var written(n *btreeNode) bool
 //@ func (f *fileStore) update(node *btreeNode) error
 //@   props C04 C12 C13
 //@   trusted
 //@   requires fsExcl(f) && cacheOK(f) && node != nil
-//@   modifies listLen(f.cache.list), listAt(f.cache.list), listPos, listOf, mapof(f.cache.cache), all(cacheEntry.val), storeState
+//@   modifies listLen(f.cache.list), listAt(f.cache.list), listPos, listOf, mapof(f.cache.cache), all(cacheEntry.val), storeState, written(node)
 //@   ensures cacheOK(f)
+//@   ensures result == nil ==> written(node)
+//@   ensures result != nil ==> written(node) == old(written(node))
 
 //@ func (f *fileStore) save() error
 //@   props C04 C12 C13
@@ -827,10 +830,12 @@ package storage
 //@   props C04 C13 C16
 //@   reveal lruInv
 //@   requires txn == 0 && cacheOK(f)
-//@   modifies txn, all(btreeNode.dirty), @cacheState, storeState
+//@   modifies txn, all(btreeNode.dirty), @cacheState, storeState, written
 //@   ensures[unlock; C13] txn == 0
 //@   ensures[cache] cacheOK(f)
+//@   ensures[clean; C04 C16] forall n *btreeNode :: written(n) && !old(written(n)) ==> !n.dirty
 //@   loop 1 invariant txn == 2 && cacheOK(f)
+//@   loop 1 invariant [clean; C04 C16] forall n *btreeNode :: written(n) && !old(written(n)) ==> !n.dirty
 
 //@ func (rs *RelationService) createPage() (*btreeNode, error)
 //@   props C01 C13
@@ -845,6 +850,7 @@ package storage
 //@   requires rsOK(rs) && fsLocked(rs.fs) && node != nil
 //@   modifies @treeState, @cacheState, storeState, rs.fs._nextLSN, rs.fs.lastKey, rs.fs.nextFreeOffset, rs.fs.pageTableRoot
 //@   ensures[rs] rsOK(rs)
+//@   ensures[root; C01; witness t=bt] result == nil ==> exists t *BTree :: fresh(t) && rs.fs.pageTableRoot == t.rootOffset
 
 //@ func (rs *RelationService) insertSchemaTable(r *Relation, tableName string) error
 //@   props C01 C13
